@@ -27,7 +27,8 @@ func concurrentWritersThenRestart(base string, seed int64, rounds int) (problem 
 	for i := range bulk {
 		bulk[i] = fmt.Sprintf("bulk-%03d", i)
 	}
-	keys := append(append([]string{}, keyAlphabet...), bulk...)
+	hot := append(append([]string{}, keyAlphabet...), bulk...) // keys the writers' generated mutations and the importer share
+	keys := append([]string{}, hot...)
 	// keys written exactly once per round, while readers keep asking for them (a read of a key
 	// the store has never seen, overlapping the first write of that key)
 	const freshPerWriter = 150
@@ -115,7 +116,7 @@ func concurrentWritersThenRestart(base string, seed int64, rounds int) (problem 
 				for !start.Load() {
 					runtime.Gosched()
 				}
-				for i := 0; i < freshPerWriter; i++ {
+				freshPut := func(i int) {
 					k := []byte(fmt.Sprintf("fresh-%d-%03d", w, i))
 					nextFresh[w].Store(int64(i))
 					for spin := 0; spin < 200; spin++ {
@@ -128,8 +129,20 @@ func concurrentWritersThenRestart(base string, seed int64, rounds int) (problem 
 					}
 					nMut.Add(1)
 				}
+				// the first writes of fresh keys are spread over the writer's other mutations (which
+				// overlap the importer from the first instant)
+				nextFreshIdx := 0
+				defer func() {
+					for ; nextFreshIdx < freshPerWriter; nextFreshIdx++ {
+						freshPut(nextFreshIdx)
+					}
+				}()
 				for i := 0; i < opsEach; i++ {
-					k := []byte(keys[r.Intn(len(keys))])
+					for n := 0; n < 2 && nextFreshIdx < freshPerWriter; n++ {
+						freshPut(nextFreshIdx)
+						nextFreshIdx++
+					}
+					k := []byte(hot[r.Intn(len(hot))])
 					switch r.Intn(6) {
 					case 0, 1:
 						kv.Put(bg, k, []byte(fmt.Sprintf("w%d-%d", w, i)))
@@ -140,7 +153,7 @@ func concurrentWritersThenRestart(base string, seed int64, rounds int) (problem 
 					case 4:
 						kv.PrefixRemove(bg, k, []byte(fmt.Sprintf("c%d", r.Intn(3))))
 					default:
-						kv.RemoveKeys(bg, [][]byte{k, []byte(keys[r.Intn(len(keys))])})
+						kv.RemoveKeys(bg, [][]byte{k, []byte(hot[r.Intn(len(hot))])})
 					}
 					nMut.Add(1)
 				}
